@@ -17,6 +17,79 @@ func (c *FuncCtx) specEnv(st *State, facts *[]*Term) *SpecEnv {
 		cur: st.lookupName, old: c.entry.lookupName, bound: map[string]Value{}, lets: c.con.Lets, facts: facts}
 }
 
+// contractView: a contract together with the environment its clauses are evaluated in.  A
+// contract with `wraps callee(args)` contributes, besides its own clauses, the callee's
+// clauses evaluated with the callee's parameters bound to the argument expressions.
+type contractView struct {
+	con *Contract
+	env func(facts *[]*Term) *SpecEnv
+}
+
+func (c *FuncCtx) views(con *Contract, pkgPath string, mk func(facts *[]*Term) *SpecEnv, depth int) []contractView {
+	out := []contractView{{con, mk}}
+	if con.Wrap == nil {
+		return out
+	}
+	if depth > 4 {
+		panic(verr("%s: wraps chain too deep", con.File))
+	}
+	key := pkgPath + "." + con.Wrap.Callee
+	callee, ok := c.prog.Contracts[key]
+	fi, ok2 := c.prog.Funcs[key]
+	if !ok || !ok2 {
+		panic(verr("%s: wraps unknown function %s", con.File, con.Wrap.Callee))
+	}
+	sig := fi.Obj.Type().(*types.Signature)
+	var names []string
+	if rn := recvName(fi.Decl); rn != "" {
+		names = append(names, rn)
+	}
+	for i := 0; i < sig.Params().Len(); i++ {
+		names = append(names, sig.Params().At(i).Name())
+	}
+	if len(names) != len(con.Wrap.Args) {
+		panic(verr("%s: wraps %s: %d arguments for %d parameters", con.File, con.Wrap.Callee, len(con.Wrap.Args), len(names)))
+	}
+	sub := func(facts *[]*Term) *SpecEnv {
+		outer := mk(facts)
+		ne := *outer
+		ne.bound = map[string]Value{}
+		for i, n := range names {
+			ne.bound[n] = outer.Eval(con.Wrap.Args[i])
+		}
+		// results keep their names
+		for _, rn := range []string{"result", "result0", "result1", "result2"} {
+			if v, ok := outer.bound[rn]; ok {
+				ne.bound[rn] = v
+			}
+		}
+		for i := 0; i < sig.Results().Len(); i++ {
+			if n := sig.Results().At(i).Name(); n != "" {
+				if v, ok := outer.bound[fmt.Sprintf("result%d", i)]; ok {
+					ne.bound[n] = v
+				}
+			}
+		}
+		ne.cur, ne.old = nil, nil
+		ne.lets = callee.Lets
+		ne.pkg = fi.Pkg.PkgPath
+		return &ne
+	}
+	return append(out, c.views(callee, fi.Pkg.PkgPath, sub, depth+1)...)
+}
+
+func (c *FuncCtx) hasAssignsDeep(con *Contract, pkgPath string, depth int) bool {
+	if con.HasAssigns {
+		return true
+	}
+	if con.Wrap != nil && depth < 5 {
+		if callee, ok := c.prog.Contracts[pkgPath+"."+con.Wrap.Callee]; ok {
+			return c.hasAssignsDeep(callee, pkgPath, depth+1)
+		}
+	}
+	return false
+}
+
 // evalHints turns `by`/`lemma` hints into facts (and proof obligations for ad-hoc lemmas).
 func (c *FuncCtx) evalHints(st *State, hints []ast.Expr, se *SpecEnv, at string) []*Term {
 	var out []*Term
@@ -132,6 +205,19 @@ func (c *FuncCtx) assignedIn(nodes ...ast.Node) *assignedSet {
 						return true
 					}
 					if fn.Pkg() != nil && fn.Pkg().Path() == "math/bits" {
+						return true
+					}
+					if fn.Pkg() != nil && (fn.Pkg().Path() == "fmt" && (fn.Name() == "Errorf" || fn.Name() == "Sprintf") || fn.Pkg().Path() == "errors" && fn.Name() == "New") {
+						return true
+					}
+					if con, ok := c.prog.Contracts[key]; ok && c.hasAssignsDeep(con, fn.Pkg().Path(), 0) {
+						// the callee writes only slices it names: havoc the heaps of its slice parameters
+						sig := fn.Type().(*types.Signature)
+						for i := 0; i < sig.Params().Len(); i++ {
+							if sl, ok := sig.Params().At(i).Type().Underlying().(*types.Slice); ok {
+								as.heaps[heapName(sl.Elem())] = true
+							}
+						}
 						return true
 					}
 					as.calls = true
@@ -512,6 +598,10 @@ func (c *FuncCtx) evalCall(st *State, n *ast.CallExpr) []Value {
 		if o.Pkg() != nil && o.Pkg().Path() == "math/bits" {
 			return c.evalBits(st, n, o.Name())
 		}
+		if o.Pkg() != nil && (o.Pkg().Path() == "fmt" && o.Name() == "Errorf" || o.Pkg().Path() == "errors" && o.Name() == "New") {
+			// the text of the error is dropped; only non-nil-ness is modelled
+			return []Value{ErrV{TFalse}}
+		}
 		key := funcObjKey(o)
 		con, ok := c.prog.Contracts[key]
 		fi, ok2 := c.prog.Funcs[key]
@@ -752,20 +842,32 @@ func (c *FuncCtx) callContract(st *State, con *Contract, fi *FuncInfo, recv Valu
 		return &SpecEnv{c: c, pkg: fi.Pkg.PkgPath, st: cur, oldSt: old, bound: b, lets: con.Lets, facts: facts}
 	}
 	// preconditions
-	for i, r := range con.Requires {
-		var facts []*Term
-		g := mkEnv(st, st, &facts, bind).Bool(r.Expr)
-		c.oblige(st, "requires", fmt.Sprintf("%s.%d", short, i), g, at, facts...)
-		st.assume(g)
+	vws := c.views(con, fi.Pkg.PkgPath, func(facts *[]*Term) *SpecEnv { return mkEnv(st, st, facts, bind) }, 0)
+	ri := 0
+	for _, vw := range vws {
+		for _, r := range vw.con.Requires {
+			var facts []*Term
+			g := vw.env(&facts).Bool(r.Expr)
+			c.oblige(st, "requires", fmt.Sprintf("%s.%d", short, ri), g, at, facts...)
+			st.assume(g)
+			ri++
+		}
 	}
 	if isPureScalar(fi) {
 		return c.applyPure(fi, con, args, func(t *Term) { st.assume(t) }, st)
 	}
 	pre := st.clone()
 	// frame
-	if con.HasAssigns {
-		var facts []*Term
-		rs := c.regions(mkEnv(st, st, &facts, bind), con.Assigns)
+	hasAssigns := false
+	var rs []region
+	for _, vw := range vws {
+		if vw.con.HasAssigns {
+			hasAssigns = true
+			var facts []*Term
+			rs = append(rs, c.regions(vw.env(&facts), vw.con.Assigns)...)
+		}
+	}
+	if hasAssigns {
 		heaps := map[string]bool{}
 		for _, r := range rs {
 			heaps[r.heap] = true
@@ -808,15 +910,20 @@ func (c *FuncCtx) callContract(st *State, con *Contract, fi *FuncInfo, recv Valu
 	if len(res) == 1 {
 		b2["result"] = res[0]
 	}
-	for _, en := range con.Ensures {
-		var facts []*Term
-		env := mkEnv(st, pre, &facts, b2)
+	evws := c.views(con, fi.Pkg.PkgPath, func(facts *[]*Term) *SpecEnv {
+		env := mkEnv(st, pre, facts, b2)
 		env.old = func(name string) (Value, bool) { v, ok := bind[name]; return v, ok }
-		g := env.Bool(en.Expr)
-		for _, f := range facts {
-			st.assume(f)
+		return env
+	}, 0)
+	for _, vw := range evws {
+		for _, en := range vw.con.Ensures {
+			var facts []*Term
+			g := vw.env(&facts).Bool(en.Expr)
+			for _, f := range facts {
+				st.assume(f)
+			}
+			st.assume(g)
 		}
-		st.assume(g)
 	}
 	return res
 }
@@ -888,9 +995,6 @@ func (p *Program) VerifyFunc(key string) (res *FuncResult) {
 	if fi.Decl.Body == nil {
 		panic(verr("function without body"))
 	}
-	if con.Vec != nil {
-		c.expandVecKernel()
-	}
 	c.loopOrd = numberLoops(fi.Decl.Body)
 	res.Loops = len(c.loopOrd)
 	st := newState()
@@ -913,15 +1017,16 @@ func (p *Program) VerifyFunc(key string) (res *FuncResult) {
 	c.heap(st, "H.uint64")
 	c.entry = st // provisional so that requires can be evaluated
 	c.entry = st.clone()
-	for _, r := range con.Requires {
-		var facts []*Term
-		se := c.specEnv(st, &facts)
-		g := se.Bool(r.Expr)
-		for _, f := range facts {
-			st.assume(f)
+	for _, vw := range c.views(con, fi.Pkg.PkgPath, func(facts *[]*Term) *SpecEnv { return c.specEnv(st, facts) }, 0) {
+		for _, r := range vw.con.Requires {
+			var facts []*Term
+			g := vw.env(&facts).Bool(r.Expr)
+			for _, f := range facts {
+				st.assume(f)
+			}
+			st.assume(g)
+			c.learnRanges(g)
 		}
-		st.assume(g)
-		c.learnRanges(g)
 	}
 	c.entry = st.clone()
 	// vacuity: the preconditions must be satisfiable
@@ -967,6 +1072,13 @@ func (c *FuncCtx) noteInputs(name string, v Value) {
 
 func (c *FuncCtx) atReturn(st *State, vals []Value) {
 	st = st.clone()
+	for i, r := range c.results {
+		if i < len(vals) {
+			if _, isNil := vals[i].(NilV); isNil {
+				vals[i] = c.zeroValue(r.Type())
+			}
+		}
+	}
 	bind := map[string]Value{}
 	for i, r := range c.results {
 		if i < len(vals) {
@@ -1005,31 +1117,44 @@ func (c *FuncCtx) atReturn(st *State, vals []Value) {
 		lf = append(lf, g)
 		lf = append(lf, facts...)
 	}
-	for i, en := range c.con.Ensures {
-		if en.Derived {
-			continue
-		}
-		var facts []*Term
-		se := mk(&facts)
-		var by []*Term
-		if len(en.By) > 0 {
-			by = c.evalHints(st, en.By, se, en.Line)
-		}
-		g := se.Bool(en.Expr)
-		extra := append(append(append([]*Term(nil), lf...), by...), facts...)
-		for j, gj := range conjuncts(g) {
-			d := fmt.Sprintf("%d", i)
-			if j > 0 {
-				d = fmt.Sprintf("%d.%d", i, j)
+	vws := c.views(c.con, c.pkg.PkgPath, mk, 0)
+	ei := 0
+	for vi, vw := range vws {
+		for _, en := range vw.con.Ensures {
+			i := ei
+			ei++
+			if en.Derived && vi == 0 {
+				continue
 			}
-			c.oblige(st, "ensures", d, gj, nil, extra...).File = en.Line
+			var facts []*Term
+			se := vw.env(&facts)
+			var by []*Term
+			if len(en.By) > 0 && vi == 0 {
+				by = c.evalHints(st, en.By, se, en.Line)
+			}
+			g := se.Bool(en.Expr)
+			extra := append(append(append([]*Term(nil), lf...), by...), facts...)
+			for j, gj := range conjuncts(g) {
+				d := fmt.Sprintf("%d", i)
+				if j > 0 {
+					d = fmt.Sprintf("%d.%d", i, j)
+				}
+				c.oblige(st, "ensures", d, gj, nil, extra...).File = en.Line
+			}
 		}
 	}
-	if c.con.HasAssigns {
-		var facts []*Term
-		se := mk(&facts)
-		se.inOld = true // regions are evaluated on entry values
-		rs := c.regions(se, c.con.Assigns)
+	hasAssigns := false
+	var rs []region
+	var afacts []*Term
+	for _, vw := range vws {
+		if vw.con.HasAssigns {
+			hasAssigns = true
+			se := vw.env(&afacts)
+			se.inOld = true // regions are evaluated on entry values
+			rs = append(rs, c.regions(se, vw.con.Assigns)...)
+		}
+	}
+	if hasAssigns {
 		for _, h := range sortedHeapNames(st.heaps) {
 			cur := st.heaps[h]
 			old := c.heap(c.entry, h)
@@ -1039,7 +1164,7 @@ func (c *FuncCtx) atReturn(st *State, vals []Value) {
 			p := Var(c.freshName("p"), SInt)
 			g := Implies(outsideAll(p, rs, h), Eq(Select(cur, p), Select(old, p)))
 			// p is a fresh constant: proving the implication for it proves the universal statement
-			c.oblige(st, "frame", h, g, nil, facts...).File = c.con.File
+			c.oblige(st, "frame", h, g, nil, afacts...).File = c.con.File
 		}
 	}
 }
